@@ -386,6 +386,23 @@ def g_plane_pairs(ctx, rng, i):
             _pair_check(ctx, qf.components, ev, fv, [ev * s1, fv * s2])
         except Exception:
             pass
+        # a single plane against a collection of planes, in both argument orders and for several collection lengths: every element is the pair
+        from geometer.curve import QuadricCollection
+
+        for kk in (2, 4, 5):
+            others = [np.asarray(P4[int(j)]) for j in rng.integers(0, len(P4), size=kk)]
+            others = [o for o in others if X.rank([X.vec(ev), X.vec(o)]) == 2]
+            if len(others) < 2:
+                continue
+            for first_single in (True, False):
+                try:
+                    pc_ = g.PlaneCollection(np.stack(others))
+                    qc = QuadricCollection.from_planes(g.Plane(ev), pc_) if first_single else QuadricCollection.from_planes(pc_, g.Plane(ev))
+                    for j, o in enumerate(others):
+                        _pair_check(ctx, qc[j].components, ev, o, [ev, o, first_single])
+                except Exception as e:  # noqa: BLE001
+                    ctx.judge("components.pair", False, [ev, np.stack(others)], what=f"from_planes({'plane, collection' if first_single else 'collection, plane'}) of {len(others)} planes: raised {type(e).__name__}: {str(e)[:80]}",
+                              op="from_planes(single, collection)", feat={"exc": type(e).__name__}, nontrivial=True)
         frac = gen.pick(rng, [0.25, 0.5, 0.375, 1.5])
         for ea, fa in ((ev, fv * frac), (ev * frac, fv), (ev.astype(np.int32), fv * frac)):
             try:
@@ -527,8 +544,11 @@ def g_conic_pairs(ctx, rng, i):
         par = np.array([[2, 0, 0], [0, 0, -1], [0, -1, 0]])  # y = x^2
         osc = np.array([[2, 0, 0], [0, 2, -1], [0, -1, 0]])  # x^2 + y^2 - y = 0: circle of curvature at the vertex (3-fold contact)
         hyp = np.array([[2, 0, 0], [0, int(rng.integers(2, 6)) * 2, -1], [0, -1, 0]])  # x^2 + k y^2 - y = 0: 4-fold contact at the origin
+        # genuine three-point contact in the origin plus one simple common point (m, m^2): parabola + k * (tangent y = 0) * (chord y = m x)
+        m_, k_ = int(gen.pick(rng, [1, 3, -1, 2, -2])), int(gen.pick(rng, [2, 3, 1, -1, -2]))
+        osc3 = par + k_ * np.array([[0, -m_, 0], [-m_, 2, 0], [0, 0, 0]])
         T = gen.unimodular(rng, 3) if i % 12 >= 6 else np.eye(3, dtype=int)
-        for A_, B_ in ((par, osc), (osc, par), (par, hyp), (hyp, par)):
+        for A_, B_ in ((par, osc), (osc, par), (par, hyp), (hyp, par), (par, osc3), (osc3, par)):
             try:
                 g.Conic(T.T @ A_ @ T).intersect(g.Conic(T.T @ B_ @ T))
             except Exception:
